@@ -881,7 +881,7 @@ def check(case, res):
             ok, en, txt = e[1], e[2], e[3]
             if s.get("ret") != (1 if ok else 0):
                 bad("exec:return", "execute returned %s, expected %s (%s %r)" % (s.get("ret"), ok, s.get("errno"), s.get("strerror")), i)
-            elif not ok and (s.get("errno") != en or txt not in (s.get("strerror") or "")):
+            elif not ok and (s.get("errno") != en or not (s.get("strerror") or "") or (en == 1 and txt not in (s.get("strerror") or ""))):
                 bad("exec:error", "failed execute gives errno %s %r, expected %s %r" % (s.get("errno"), s.get("strerror"), en, txt), i)
         elif k == "out":
             got = unhex(s.get("out", "")).decode("latin-1")
